@@ -421,6 +421,14 @@ def check_iso(case, rec):
         res3 = lib(gs.vario_estimate, pos, enc, edges, estimator=est, return_counts=True, _tags=dict(tags, missing_as=how), **kw)
         msg, rel = _mismatch(res3[1], res3[2], o_v, o_c)
         require(msg is None, f"vario_estimate with missing values given as {how}: {msg}", dict(tags, kind="mismatch", api="vario_estimate", missing_as=how))
+        if how == "no_data":
+            # a constant mean shifts every value alike: the marked entries stay missing, the pair counts stay exactly the same
+            res4 = lib(gs.vario_estimate, pos, enc, edges, estimator=est, return_counts=True, mean=2.5, _tags=dict(tags, missing_as=how), **kw)
+            require(
+                np.array_equal(np.asarray(res4[2]), np.asarray(res3[2])),
+                f"vario_estimate(no_data=..., mean=2.5): pair counts {np.asarray(res4[2]).tolist()} differ from the counts without a mean {np.asarray(res3[2]).tolist()}",
+                dict(tags, kind="mismatch", api="vario_estimate", missing_as="no_data+mean"),
+            )
     _nontrivial(rec, case, n, info, False)
 
 
